@@ -1,3 +1,60 @@
-From Oal Require Import Tag.
-Theorem C04_placeholder : True. Proof. exact I. Qed.
-Print Assumptions C04_placeholder.
+(** Property C04 — any text is answered with a result or diagnostics, never a crash.
+
+    The front ends are compositions of the stages modelled in this development. This file
+    collects, per stage, the theorem that excludes a crash or a hang of that stage, for all
+    inputs. It is partial and says so: the composition itself (a single [frontend_total]
+    over texts) is not stated because two links are not proved — that the parser's fuel
+    always suffices (no left recursion; measured, and tied by agreement with the real parser
+    incl. its read counters), and the preservation half of C01. Stack depth and wall-clock
+    are run-time behaviour observed by the monitors (nesting depth 200, time limits). *)
+From Oal Require Import Peg Grammar PegProofs GrammarProofs Tag Unify UnifyProofs Cycles CyclesProofs Loader LoaderProofs
+  Text Position Lsp LspProofs Cast CastProofs.
+Local Open Scope nat_scope.
+
+(** parser: an answer, once given, is stable under more fuel, and the memo table never changes it *)
+Theorem C04_parser_answer_stable : forall n m toks r,
+  parse_pure n toks = r -> r <> Fuel -> n <= m -> parse_pure m toks = r.
+Proof. exact oal_parse_stable. Qed.
+Print Assumptions C04_parser_answer_stable.
+
+Theorem C04_parser_memo_invisible : forall n toks r st,
+  parse_memo n toks = (r, st) -> r <> Fuel -> exists m, parse_pure m toks = r.
+Proof. exact oal_memo_transparent. Qed.
+Print Assumptions C04_parser_memo_invisible.
+
+(** inference: the substitution stays acyclic, so reducing a tag terminates (F2 fixed) *)
+Theorem C04_tag_reduction_terminates : forall s t,
+  TRI s -> forall m, 1 + depth t + cost s <= m -> reduce m s t <> None.
+Proof. exact reduce_total. Qed.
+Print Assumptions C04_tag_reduction_terminates.
+
+Theorem C04_self_containing_type_rejected :
+  unify 3 [] (TVar 0) (TProperty (TVar 0)) = UErr ERecursive.
+Proof. exact self_property_rejected. Qed.
+Print Assumptions C04_self_containing_type_rejected.
+
+(** recursion check and module loader terminate *)
+Theorem C04_recursion_check_terminates :
+  forall referential scc, scc_spec scc -> forall ns g,
+  cycles_check referential scc (S (length g)) ns g [] <> CFuel.
+Proof. exact cycles_check_terminates. Qed.
+Print Assumptions C04_recursion_check_terminates.
+
+Theorem C04_loader_terminates :
+  forall fs compile_ok topo base univ,
+  In base univ -> (forall n, In n univ -> incl (imports_of fs n) univ) ->
+  load fs compile_ok topo (S (S (length univ))) base <> LFuel.
+Proof. exact load_terminates. Qed.
+Print Assumptions C04_loader_terminates.
+
+(** evaluator: a guarded cast of an admitted value never panics outside the recorded triples *)
+Theorem C04_guarded_casts_do_not_panic_partial : forall s t k,
+  resolved t = true -> check s t = true -> admits t k = true -> known s k = false -> cast_ok s k = true.
+Proof. exact cast_never_panics. Qed.
+Print Assumptions C04_guarded_casts_do_not_panic_partial.
+
+(** language server: an in-line change range with start <= end never panics (F5 fixed) *)
+Theorem C04_document_change_never_panics : forall doc l sc ec w,
+  (sc <= ec)%N -> apply_change doc (CIncr l sc l ec w) <> None.
+Proof. exact change_in_line_never_panics. Qed.
+Print Assumptions C04_document_change_never_panics.
